@@ -86,7 +86,7 @@ class CHECK(core.Check):
     N_QUICK = 1200
     N_THOROUGH = 30000
     N_SEARCH = 3000
-    RULE = ("a real tcp Client (bare), TcpClientStack over it, or http Patron over it (non-TLS), reconnect timeout in {0, <0, "
+    RULE = ("a real tcp Client (bare), TcpClientStack over it, or http Patron over it (non-TLS), each built in one of three documented ways (clock and connector/handler given; neither given, the object makes its own; reconnectable set by attribute) and driven through the object's OWN clock (client.store / stack.stamper / patron.store), reconnect timeout in {0, <0, "
             "100..2048 ticks}, reconnectable or not, optional SSE retry for the Patron; explicit phase: 0..25 calls "
             "(serviceConnect / stack.serviceConnect / Patron.serviceAll with the connect_ex answer drawn from 9 errnos, clock "
             "advances, connection loss detected by receive (closed or reset), owner close/reopen); then, in ~60% of cases, a "
@@ -175,7 +175,8 @@ class CHECK(core.Check):
                     pre.append("o")
         else:
             pre = self._pre(rng, kind, rng.choice(["closed", "reset", "never", "ownerclose"]))
-        case = {"kind": kind, "timeout": T, "rec": rec, "retry": retry, "pre": pre, "loss": rng.choice(["closed", "reset"])}
+        case = {"kind": kind, "timeout": T, "rec": rec, "retry": retry, "pre": pre, "loss": rng.choice(["closed", "reset"]),
+                "build": rng.choice(["given", "own", "attr"])}
         if rng.random() < 0.6:
             k = rng.choice([1, 2, 2, 3, 4])
             case["listen"] = {"k": k, "dts": self._dts(rng, T, k, rng.randrange(4, 31))}
@@ -199,7 +200,7 @@ class CHECK(core.Check):
             pre = {"closed": [svc + "0", "A500", "L"], "never": [], "refused": [svc + "111", "A10", svc + "111"],
                    "ownerclose": [svc + "0", "c"]}[lose]
             yield {"kind": kind, "timeout": T, "rec": rec, "retry": None, "pre": pre, "loss": "closed",
-                   "listen": {"k": k, "dts": [d] * 12}}
+                   "listen": {"k": k, "dts": [d] * 12}, "build": ["given", "own", "attr"][(k + d // 50) % 3]}
 
     # ---- implementation
     def impl(self, case):
@@ -212,18 +213,48 @@ class CHECK(core.Check):
         saved = clienting.socket
         clienting.socket = Shim(real_socket, lambda: FakeConnSock(world))
         try:
-            store = Stamper(stamp=0.0)
-            client = clienting.Client(ha=SRV_HA, store=store, timeout=case["timeout"] / TICK,
-                                      reconnectable=bool(case["rec"]))
+            # every documented way of building the object; time is then driven through the object's OWN clock
+            build = case.get("build", "given")
+            T, rec = case["timeout"] / TICK, bool(case["rec"])
             stack = patron = None
             if kind == "bare":
+                if build == "own":                       # no store given: the client makes its own
+                    client = clienting.Client(ha=SRV_HA, timeout=T, reconnectable=rec)
+                elif build == "attr":                    # reconnectable switched on/off by attribute
+                    client = clienting.Client(ha=SRV_HA, store=Stamper(stamp=0.0), timeout=T)
+                    client.reconnectable = rec
+                else:
+                    client = clienting.Client(ha=SRV_HA, store=Stamper(stamp=0.0), timeout=T, reconnectable=rec)
                 client.reopen()
+                clock = client.store
             elif kind == "stack":
-                stack = stacking.TcpClientStack(ha=SRV_HA, handler=client, stamper=store)
+                if build == "own":                       # the stack creates its handler and its stamper
+                    stack = stacking.TcpClientStack(ha=SRV_HA, timeout=T)
+                    stack.handler.reconnectable = rec
+                elif build == "attr":                    # stamper given, handler created by the stack
+                    stack = stacking.TcpClientStack(ha=SRV_HA, timeout=T, stamper=Stamper(stamp=0.0))
+                    stack.handler.reconnectable = rec
+                else:
+                    st = Stamper(stamp=0.0)
+                    stack = stacking.TcpClientStack(
+                        ha=SRV_HA, stamper=st,
+                        handler=clienting.Client(ha=SRV_HA, store=st, timeout=T, reconnectable=rec))
+                client = stack.handler
+                clock = stack.stamper
             elif kind == "patron":
                 from ioflo.aio.http import clienting as hclienting
-                patron = hclienting.Patron(connector=client, store=store)
-                client.reopen()
+                if build == "own":                       # neither store nor connector given
+                    patron = hclienting.Patron(hostname=SRV_HA[0], port=SRV_HA[1], timeout=T, reconnectable=rec)
+                elif build == "attr":                    # store given, connector created by the patron
+                    patron = hclienting.Patron(hostname=SRV_HA[0], port=SRV_HA[1], store=Stamper(stamp=0.0), timeout=T)
+                    patron.connector.reconnectable = rec
+                else:
+                    st = Stamper(stamp=0.0)
+                    patron = hclienting.Patron(
+                        connector=clienting.Client(ha=SRV_HA, store=st, timeout=T, reconnectable=rec), store=st)
+                client = patron.connector
+                patron.open()
+                clock = patron.store                     # the clock Patron.serviceWhile advances
                 if case.get("retry") is not None:
                     patron.respondent.evented = True
                     patron.respondent.retry = case["retry"] * 1000 // 1024
@@ -257,7 +288,7 @@ class CHECK(core.Check):
                 k, arg = tok[0], tok[1:]
                 world.recv = "w"
                 if k == "A":
-                    store.advance(int(arg) / TICK)
+                    clock.advanceStamp(int(arg) / TICK)
                 elif k in "BSH":
                     world.code = int(arg)
                     service(k)
@@ -277,7 +308,7 @@ class CHECK(core.Check):
                 world.recv = "w"
                 letter = {"bare": "B", "stack": "S", "patron": "H"}[kind]
                 for dt in lis["dts"]:
-                    store.advance(int(dt) / TICK)
+                    clock.advanceStamp(int(dt) / TICK)
                     service(letter)
                     record()
             return out or ["-"]
@@ -385,6 +416,7 @@ class CHECK(core.Check):
             tags.append("listen-k%d" % case["listen"]["k"])
             if out and " ; " in out[-1]:
                 tags.append("ends-live" if ("c=1 x=0" in out[-1]) else "ends-down")
+        tags.append("build-" + case.get("build", "given"))
         if any(t == "L" for t in case["pre"]):
             tags.append("loss")
         if case.get("retry") is not None:
